@@ -7,6 +7,7 @@ import (
 	"net"
 	"sync"
 	"sync/atomic"
+	"time"
 )
 
 type Proxy struct {
@@ -20,6 +21,7 @@ type Proxy struct {
 	black    int32 // 1: swallow bytes in both directions (connections stay open); 2: up only; 3: down only
 	refuse   int32
 	closed   int32
+	delay    int64 // one-way latency in ns added to every forwarded chunk
 }
 
 func New(target string) (*Proxy, error) {
@@ -78,6 +80,9 @@ func (p *Proxy) pipe(src, dst net.Conn, ctr, cut *int64, dir int32) {
 					p.CutAll()
 					return
 				}
+				if d := atomic.LoadInt64(&p.delay); d > 0 {
+					time.Sleep(time.Duration(d))
+				}
 				if _, werr := dst.Write(buf[:n]); werr != nil {
 					src.Close()
 					return
@@ -116,6 +121,9 @@ func (p *Proxy) Refuse(on bool) {
 	}
 	atomic.StoreInt32(&p.refuse, v)
 }
+// Delay adds a one-way latency to everything forwarded from now on (order is kept).
+func (p *Proxy) Delay(d time.Duration) { atomic.StoreInt64(&p.delay, int64(d)) }
+
 func (p *Proxy) Bytes() (up, down int64) { return atomic.LoadInt64(&p.up), atomic.LoadInt64(&p.down) }
 
 func (p *Proxy) Close() {
